@@ -51,32 +51,39 @@ deriving Repr, DecidableEq
 
 def Shapes.add (a b : Shapes) : Shapes := ⟨a.ands + b.ands, a.ors + b.ors, a.ites + b.ites⟩
 
-/-- is `st`, coming right after an assignment to `prev`, the guarded second half of an and / or
-lowering?  Is it a two-armed conditional (only `x if c else y` produces an `else`)? -/
-def classify (prev : Option String) (st : Stmt) : Shapes :=
+mutual
+  /-- the variables a statement assigns somewhere inside it -/
+  def assigned : Stmt → List String
+    | .set x _ => [x]
+    | .block body => assignedL body
+    | .loop _ _ body => assignedL body
+    | .ite _ thn els => assignedL thn ++ assignedL els
+    | _ => []
+  def assignedL : List Stmt → List String
+    | [] => []
+    | st :: rest => assigned st ++ assignedL rest
+end
+
+/-- is `st` the guarded later operand of an and / or lowering — `if (r) {…r = b…}` / `if (!r) {…r = b…}` where the
+result variable `r` has been assigned by an EARLIER statement of the same list (plainly, inside the guard of a
+`First()` that the first operand contains, or by an earlier operand of the chain)?  Is it a two-armed conditional
+(only `x if c else y` produces an `else`)? -/
+def classify (seen : List String) (st : Stmt) : Shapes :=
   match st with
-  | .ite (.var r) thn [] => if prev = some r ∧ assignsL r thn then ⟨1, 0, 0⟩ else {}
-  | .ite (.un "!" (.var r)) thn [] => if prev = some r ∧ assignsL r thn then ⟨0, 1, 0⟩ else {}
+  | .ite (.var r) thn [] => if r ∈ seen ∧ assignsL r thn then ⟨1, 0, 0⟩ else {}
+  | .ite (.un "!" (.var r)) thn [] => if r ∈ seen ∧ assignsL r thn then ⟨0, 1, 0⟩ else {}
   | .ite _ _ (_ :: _) => ⟨0, 0, 1⟩
   | _ => {}
 
-/-- the result variable a statement has just (possibly) assigned: a plain assignment, or an earlier
-guarded operand of the same chain (`a or b or c` is `r = a; if (!r) {…r = b…} if (!r) {…r = c…}`) -/
-def setOf : Stmt → Option String
-  | .set r _ => some r
-  | .ite (.var r) thn [] => if assignsL r thn then some r else none
-  | .ite (.un "!" (.var r)) thn [] => if assignsL r thn then some r else none
-  | _ => none
-
 mutual
   def countShapes : Stmt → Shapes
-    | .block body => countShapesL none body
-    | .loop _ _ body => countShapesL none body
-    | .ite _ thn els => (countShapesL none thn).add (countShapesL none els)
+    | .block body => countShapesL [] body
+    | .loop _ _ body => countShapesL [] body
+    | .ite _ thn els => (countShapesL [] thn).add (countShapesL [] els)
     | _ => {}
-  def countShapesL (prev : Option String) : List Stmt → Shapes
+  def countShapesL (seen : List String) : List Stmt → Shapes
     | [] => {}
-    | st :: rest => ((classify prev st).add (countShapes st)).add (countShapesL (setOf st) rest)
+    | st :: rest => ((classify seen st).add (countShapes st)).add (countShapesL (seen ++ assigned st) rest)
 end
 
 end FaxVerif.C04
